@@ -675,6 +675,33 @@ func (self *Analyzer) assignExpression(node pAst.AssignExpression) ast.AnalyzedA
 	lhs := self.expression(node.Lhs)
 	rhs := self.expression(node.Rhs)
 
+	// Only a variable, an element or a field can be assigned to: not a function of the module (the backends do not
+	// even agree on what that would do), not the result of a cast, a call or an operator.
+	target := node.Lhs
+	for target.Kind() == pAst.GroupedExpressionKind {
+		target = target.(pAst.GroupedExpression).Inner
+	}
+	switch target.Kind() {
+	case pAst.IdentExpressionKind:
+		ident := target.(pAst.IdentExpression).Ident.Ident()
+		if _, _, isVar := self.currentModule.getVar(ident); !isVar {
+			if _, isFn := self.currentModule.getFunc(ident); isFn {
+				self.error(
+					fmt.Sprintf("Cannot assign to function '%s'", ident),
+					[]string{"Only variables, list elements and object fields can be assigned to"},
+					node.Lhs.Span(),
+				)
+			}
+		}
+	case pAst.IndexExpressionKind, pAst.MemberExpressionKind:
+	default:
+		self.error(
+			"Cannot assign to this expression",
+			[]string{"Only variables, list elements and object fields can be assigned to"},
+			node.Lhs.Span(),
+		)
+	}
+
 	resultType := ast.NewNullType(node.Range)
 	prevErr := false
 
